@@ -256,7 +256,7 @@ func cmdVerify(args []string) {
 		if len(vc.unsup) > 0 {
 			status += " UNSUPPORTED"
 		}
-		fmt.Printf("%-60s %d/%d %s %.2fs smoke=%s\n", vc.key, ok, len(vc.obls), status, r.Secs, r.Smoke)
+		fmt.Printf("%-60s %d/%d %s %.2fs smoke=%s exit=%s\n", vc.key, ok, len(vc.obls), status, r.Secs, r.Smoke, r.Exit)
 		for _, u := range vc.unsup {
 			fmt.Printf("    unsupported: %s\n", u)
 		}
